@@ -324,7 +324,11 @@ class RefRules:
     def applicable(self, r, foci):
         ref = self.ref()
         conds = self.conditions(r)
-        return [f for f in foci if all(len(ref.validate_node(c, f)) == 0 for c in conds)]
+        out = [f for f in foci if all(len(ref.validate_node(c, f)) == 0 for c in conds)]
+        # a condition that rests on a comparison the properties leave unspecified (two IRIs / two language-tagged strings under an
+        # ordering, NaN): whether the rule fires is then unspecified too
+        self.unspecified = getattr(self, "unspecified", []) + list(getattr(ref, "unspecified", []))
+        return out
 
     def expr(self, e, f, depth=0):
         sg = self.sg
